@@ -10,7 +10,7 @@ use crate::probe::{Decision, Probe};
 use crate::statejson::{self, ShapeSpec};
 
 pub const TITLE: &str = "A rejected move leaves no trace; the result is the last accepted state";
-pub const RULE: &str = "part scripted: synthetic states with 2..8 parameters, bounds either so narrow that clamping is frequent (range 1, moves up to +-range/2) or wide (never clamped), 1..20 inner loops, any kT, and a cyclic adversarial script of forced outcomes (accept by 'better'/'equal', reject by 'undefined', 'worse' = reject at kT=0 and either at kT>0). History invariants: (1) every proposal differs in at most one coordinate, all others bit-identical, from some state the optimiser can be in, where after each step that state is either exactly the proposal or exactly the previous state whatever the decision was (a proposal without a score can only be followed by the previous state); (2) the parameters of the returned state are one of the states the history allows, and when every interior forced decision was honoured they are bit-for-bit the last accepted proposal (or the input if none); (3) the final validity evaluation sees the returned parameters. part real: the same decision-agnostic invariants on real hard and Lennard-Jones states at kT=0 and kT>0. Non-trivial = the history contains accept, reject, reject on one coordinate (the stale-backup pattern) or a clamped proposal that is rejected; distinct by hash of the case.";
+pub const RULE: &str = "part scripted: synthetic states with 2..8 parameters, bounds either so narrow that clamping is frequent (range 1, moves up to +-range/2) or wide (never clamped), optionally one parameter starting outside its bounds, 1..20 inner loops, any kT, with and without a convergence threshold, and a cyclic adversarial script of forced outcomes (accept by 'better'/'equal', reject by 'undefined', 'worse' = reject at kT=0 and either at kT>0). History invariants: (1) every proposal differs in at most one coordinate, all others bit-identical, from some state the optimiser can be in, where after each step that state is either exactly the proposal or exactly the previous state whatever the decision was (a proposal without a score can only be followed by the previous state); (2) the parameters of the returned state are one of the states the history allows, and when every interior forced decision was honoured they are bit-for-bit the last accepted proposal (or the input if none); (3) the final validity evaluation sees the returned parameters. part real: the same decision-agnostic invariants on real hard and Lennard-Jones states at kT=0 and kT>0. Non-trivial = the history contains accept, reject, reject on one coordinate (the stale-backup pattern) or a clamped proposal that is rejected; distinct by hash of the case.";
 
 pub fn assumptions() -> Vec<&'static str> {
     vec![
@@ -25,6 +25,8 @@ pub struct ScriptCase {
     pub n: usize,
     pub wide: bool,
     pub decisions: Vec<Decision>,
+    /// Some((i, offset)): parameter i starts outside its bounds by `offset` ranges (a state read from a file may)
+    pub outside: Option<(u16, f64)>,
 }
 
 fn any_cfg(max_steps: u64, max_loops: u64) -> BoxedStrategy<OptCfg> {
@@ -35,8 +37,9 @@ fn any_cfg(max_steps: u64, max_loops: u64) -> BoxedStrategy<OptCfg> {
         prop_oneof![Just(None), Just(Some(0.)), Just(Some(0.1)), Just(Some(0.5))],
         prop_oneof![(-3.0..0.0f64).prop_map(|e| 10f64.powf(e)), Just(1.0)],
         any::<u64>(),
+        prop_oneof![3 => Just(None), 1 => Just(Some(0.)), 1 => Just(Some(1e-6)), 1 => Just(Some(1e3))],
     )
-        .prop_map(|((steps, inner), kt_start, kt_finish, kt_ratio, max_step, seed)| OptCfg { steps, inner, kt_start, kt_finish, kt_ratio, max_step, convergence: None, seed })
+        .prop_map(|((steps, inner), kt_start, kt_finish, kt_ratio, max_step, seed, convergence)| OptCfg { steps, inner, kt_start, kt_finish, kt_ratio, max_step, convergence, seed })
         .boxed()
 }
 
@@ -51,13 +54,19 @@ fn c06_decision() -> BoxedStrategy<Decision> {
 }
 
 fn script_strat(_: &Ctx) -> BoxedStrategy<ScriptCase> {
-    (any_cfg(4000, 20), 2usize..=8, any::<bool>(), proptest::collection::vec(c06_decision(), 1..64)).prop_map(|(cfg, n, wide, decisions)| ScriptCase { cfg, n, wide, decisions }).boxed()
+    (any_cfg(4000, 20), 2usize..=8, any::<bool>(), proptest::collection::vec(c06_decision(), 1..64), prop_oneof![5 => Just(None), 1 => (any::<u16>(), prop_oneof![0.01..1.0f64, -1.0..-0.01f64]).prop_map(Some)])
+        .prop_map(|(cfg, n, wide, decisions, outside)| ScriptCase { cfg, n, wide, decisions, outside })
+        .boxed()
 }
 
 fn script_oracle(c: &ScriptCase, rec: &Rec, _: &Ctx) -> Result<(), String> {
     let (lo, hi) = if c.wide { (-1.0e6, 1.0e6) } else { (0., 1.) };
-    let init = vec![0.5 * (lo + hi) + 0.25; c.n];
+    let mut init = vec![0.5 * (lo + hi) + 0.25; c.n];
     let bounds = vec![(lo, hi); c.n];
+    if let Some((i, off)) = c.outside {
+        let i = crate::engine::idx(i, c.n);
+        init[i] = if off > 0. { hi + off * (hi - lo) } else { lo + off * (hi - lo) };
+    }
     let kt_zero = c.cfg.kt_start == 0.;
     let policy = ForcedPolicy { decisions: c.decisions.clone(), base: 1.0, proposals: c.cfg.proposals() };
     let out = run_script(&c.cfg, &init, &bounds, kt_zero, true, Box::new(policy));
